@@ -146,6 +146,103 @@ def classify_u256(repo):
     return closed, prim, R.finish()
 
 
+class Reducer:
+    """Judgement `Reduced(term, Fp type)`: the term is produced by a reduction-closed operation w.r.t. that type's modulus."""
+    def __init__(self, repo, closed):
+        self.repo, self.F, self.closed = repo, repo.F, closed
+        self.fp = repo.fp_types()
+        self.mod_int = {ap: repo.static_int(info["modulus"]) for ap, info in self.fp.items()}
+
+    def reduced(self, body, tb, t, ap, site_bb, why):
+        M = self.fp[ap]["modulus"]
+        for a in alts(t):
+            if not self.reduced1(body, tb, a, ap, M, site_bb, why):
+                return False
+        return True
+
+    def reduced1(self, body, tb, t, ap, M, site_bb, why):
+        h = t[0]
+        if h == "update" and t[2] == (("f", 0),):
+            return self.reduced(body, tb, t[3], ap, site_bb, why)
+        if h == "field" and t[2] == 0:
+            ty = type_of_term(self.F, body, t[1])
+            if ty == ap:
+                return True
+            if ty and ty in self.fp:
+                why.append("limbs of a %s used for a %s" % (ty, ap))
+                return False
+        if h == "field" and t[2] == 1 and strip(t[1])[0] == "call" and strip(t[1])[1].name == "divrem":
+            c = strip(t[1])
+            if self.repo.static_of(c[2][1]) == M:
+                return True
+            why.append("remainder taken modulo %s, not %s" % (show(c[2][1], maxdepth=2), M))
+            return False
+        if h == "mutcall":
+            return self.judge_mutcall(body, tb, t[1], t[2], t[3], ap, M, site_bb, why)
+        if h == "call":
+            d = t[1].d
+            if d in ("crate::u256::U256::zero", "crate::u256::U256::one"):
+                return True
+            if d == "crate::u256::U256::random":
+                if self.repo.static_of(t[2][1]) == M:
+                    return True
+                why.append("random modulo another modulus")
+                return False
+        st = self.repo.static_of(t)
+        if st is not None:
+            v = self.repo.static_values().get(st, {}).get("int")
+            if v is not None and v < self.mod_int[ap]:
+                return True
+            why.append("static %s is not a literal below the modulus" % st)
+            return False
+        lit = literal_u256(t)
+        if lit is not None:
+            if lit < self.mod_int[ap]:
+                return True
+            why.append("literal %#x is not below the modulus" % lit)
+            return False
+        # a raw value on the true edge of `value < MODULUS`
+        for bi in sorted(body.reachable()):
+            term = body.blocks[bi]["term"]
+            if term["k"] != "switch":
+                continue
+            d = tb.operand(term["discr"], bi, len(body.blocks[bi]["stmts"]))
+            if d[0] == "call" and d[1].name == "lt" and len(d[2]) == 2 and strip(d[2][0]) == t and self.repo.static_of(d[2][1]) == M:
+                true_bb = term["otherwise"] if any(int(a[0]) == 0 for a in term["arms"]) else None
+                if true_bb is not None and body.pred()[true_bb] == [bi] and body.dominates(true_bb, site_bb):
+                    return True
+        why.append("value %s is not produced by a reduction-closed operation" % show(t, maxdepth=4)[:200])
+        return False
+
+    def judge_mutcall(self, body, tb, fn, args, argpos, ap, M, site_bb, why):
+        d = fn.d
+        info = self.closed.get(d)
+        if info is None:
+            why.append("limbs handed by &mut to %s, which is not reduction-closed" % fn.i)
+            return False
+        if argpos != 0:
+            why.append("limbs handed to %s as argument %d (not the receiver)" % (fn.i, argpos))
+            return False
+        marg = args[info["mod"] - 1]
+        if self.repo.static_of(marg) != M:
+            why.append("%s applied with modulus %s, but the type's modulus is %s" % (fn.name, show(marg, maxdepth=3), M))
+            return False
+        for need in info["needs"]:
+            if need == "self":
+                prev = strip(args[0])
+                if not self.reduced(body, tb, prev, ap, site_bb, why):
+                    return False
+            elif need == "self|2":
+                w1, w2 = [], []
+                if not (self.reduced(body, tb, strip(args[0]), ap, site_bb, w1) or self.reduced(body, tb, strip(args[1]), ap, site_bb, w2)):
+                    why.append("neither operand of %s is known reduced (%s; %s)" % (fn.name, "; ".join(w1[:1]), "; ".join(w2[:1])))
+                    return False
+            else:
+                if not self.reduced(body, tb, strip(args[need - 1]), ap, site_bb, why):
+                    return False
+        return True
+
+
 # ====================================================================== R-RED
 def rule_red(repo, closed=None):
     F = repo.F
@@ -163,94 +260,9 @@ def rule_red(repo, closed=None):
                 return ts[i]
         return None
 
-    def reduced(body, tb, t, ap, site_bb, why):
-        M = fp[ap]["modulus"]
-        for a in alts(t):
-            if not reduced1(body, tb, a, ap, M, site_bb, why):
-                return False
-        return True
-
-    def reduced1(body, tb, t, ap, M, site_bb, why):
-        h = t[0]
-        if h == "update" and t[2] == (("f", 0),):
-            return reduced(body, tb, t[3], ap, site_bb, why)
-        if h == "field" and t[2] == 0:
-            ty = type_of_term(F, body, t[1])
-            if ty == ap:
-                return True
-            if ty and ty in fp:
-                why.append("limbs of a %s used for a %s" % (ty, ap))
-                return False
-        if h == "field" and t[2] == 1 and strip(t[1])[0] == "call" and strip(t[1])[1].name == "divrem":
-            c = strip(t[1])
-            if repo.static_of(c[2][1]) == M:
-                return True
-            why.append("remainder taken modulo %s, not %s" % (show(c[2][1], maxdepth=2), M))
-            return False
-        if h == "mutcall":
-            return judge_mutcall(body, tb, t[1], t[2], t[3], ap, M, site_bb, why)
-        if h == "call":
-            d = t[1].d
-            if d in ("crate::u256::U256::zero", "crate::u256::U256::one"):
-                return True
-            if d == "crate::u256::U256::random":
-                if repo.static_of(t[2][1]) == M:
-                    return True
-                why.append("random modulo another modulus")
-                return False
-        st = repo.static_of(t)
-        if st is not None:
-            v = repo.static_values().get(st, {}).get("int")
-            if v is not None and v < mod_int[ap]:
-                return True
-            why.append("static %s is not a literal below the modulus" % st)
-            return False
-        lit = literal_u256(t)
-        if lit is not None:
-            if lit < mod_int[ap]:
-                return True
-            why.append("literal %#x is not below the modulus" % lit)
-            return False
-        # a raw value on the true edge of `value < MODULUS`
-        for bi in sorted(body.reachable()):
-            term = body.blocks[bi]["term"]
-            if term["k"] != "switch":
-                continue
-            d = tb.operand(term["discr"], bi, len(body.blocks[bi]["stmts"]))
-            if d[0] == "call" and d[1].name == "lt" and len(d[2]) == 2 and strip(d[2][0]) == t and repo.static_of(d[2][1]) == M:
-                true_bb = term["otherwise"] if any(int(a[0]) == 0 for a in term["arms"]) else None
-                if true_bb is not None and body.pred()[true_bb] == [bi] and body.dominates(true_bb, site_bb):
-                    return True
-        why.append("value %s is not produced by a reduction-closed operation" % show(t, maxdepth=4)[:200])
-        return False
-
-    def judge_mutcall(body, tb, fn, args, argpos, ap, M, site_bb, why):
-        d = fn.d
-        info = closed.get(d)
-        if info is None:
-            why.append("limbs handed by &mut to %s, which is not reduction-closed" % fn.i)
-            return False
-        if argpos != 0:
-            why.append("limbs handed to %s as argument %d (not the receiver)" % (fn.i, argpos))
-            return False
-        marg = args[info["mod"] - 1]
-        if repo.static_of(marg) != M:
-            why.append("%s applied with modulus %s, but the type's modulus is %s" % (fn.name, show(marg, maxdepth=3), M))
-            return False
-        for need in info["needs"]:
-            if need == "self":
-                prev = strip(args[0])
-                if not reduced(body, tb, prev, ap, site_bb, why):
-                    return False
-            elif need == "self|2":
-                w1, w2 = [], []
-                if not (reduced(body, tb, strip(args[0]), ap, site_bb, w1) or reduced(body, tb, strip(args[1]), ap, site_bb, w2)):
-                    why.append("neither operand of %s is known reduced (%s; %s)" % (fn.name, "; ".join(w1[:1]), "; ".join(w2[:1])))
-                    return False
-            else:
-                if not reduced(body, tb, strip(args[need - 1]), ap, site_bb, why):
-                    return False
-        return True
+    red = Reducer(repo, closed)
+    reduced = red.reduced
+    judge_mutcall = red.judge_mutcall
 
     for b in F.fn_bodies():
         tb = None
